@@ -1149,3 +1149,93 @@ BENIGN += [
         {"file": OD, "old": "py::array_t<double> Naunet::PyWrapSolve(", "new": "static void ThrowIfFailed(int flag) {\n    if (flag == NAUNET_FAIL) {\n        throw std::runtime_error(\"Something unrecoverable occurred\");\n    }\n}\n\npy::array_t<double> Naunet::PyWrapSolve("},
         {"file": OD, "old": "    int flag             = Solve(abund, dt, data);\n    if (flag == NAUNET_FAIL) {\n        throw std::runtime_error(\"Something unrecoverable occurred\");\n    }\n\n    return py::array_t<double>(info.shape, abund);", "new": "    ThrowIfFailed(Solve(abund, dt, data));\n\n    return py::array_t<double>(info.shape, abund);"}]},
 ]
+
+
+# ---------------------------------------------------------------- third catalogue: pieces of the ladder / of the odeint driver as members with early returns
+_CHAIN = """        if (cvflag < 0 && cvflag > -5) {
+            for (int i = 0; i < NEQUATIONS; i++) {
+                ab_tmp_[i] = ab[i];
+            }
+            dt -= t0;
+        } else if (cvflag == -6) {
+            // The state may have something wrong
+            // Reset to the initial state and try finer steps
+            for (int i = 0; i < NEQUATIONS; i++) {
+                ab_tmp_[i] = ab_init_[i];
+            }
+            dt = dt_init;
+        } else if (cvflag < 0) {
+            fprintf(
+                errfp_,
+                "The error cannot be recovered by Naunet! Exit from Naunet!\\n");
+            fprintf(errfp_, "cvFlag = %d, level = %d\\n", cvflag, level);
+            return NAUNET_FAIL;
+        }
+"""
+_REINIT = """        t0 = 0.0;
+        for (int i = 0; i < NEQUATIONS; i++) {
+            ab[i] = ab_tmp_[i];
+        }
+
+        // Reinitialize
+        cvflag = CVodeReInit(cv_mem_, t0, cv_y_);
+        if (CheckFlag(&cvflag, "CVodeReInit", 1, errfp_) == NAUNET_FAIL) {
+            return NAUNET_FAIL;
+        }
+"""
+_RESTART = ("int Naunet::Restart(realtype *ab, realtype &t0) {\n    t0 = 0.0;\n    for (int i = 0; i < NEQUATIONS; i++) {\n        ab[i] = ab_tmp_[i];\n    }\n    int flag = CVodeReInit(cv_mem_, t0, cv_y_);\n"
+            "    if (CheckFlag(&flag, \"CVodeReInit\", 1, errfp_) == NAUNET_FAIL) {\n        return NAUNET_FAIL;\n    }\n    return NAUNET_SUCCESS;\n}\n\n")
+_TRY = """    step_ = 0;
+    try {
+        step_ = integrate_adaptive(
+            make_controlled<rosenbrock4<double>>(atol_, rtol_),
+            std::make_pair(Fex(data), Jac(data)), y, 0.0, dt, dt, observer);
+    } catch (const std::runtime_error &e) {
+        fprintf(errfp_, "%s\\n", e.what());
+
+        flag = NAUNET_FAIL;
+    }
+"""
+_INTEGRATE = "            std::make_pair(Fex(data), Jac(data)), y, 0.0, dt, dt, observer);\n"
+_OSOLVE = "int Naunet::Solve(double *abund, double dt, NaunetData *data) {\n"
+_CALL_PREPARE = "        if (!PrepareLevel(cvflag, ab, dt, t0, dt_init)) {\n            return NAUNET_FAIL;\n        }\n"
+
+
+def _prepare_level(sig):
+    """the classification of the flag at the start of a level as a member; `sig` decides how the interval is passed"""
+    return ("bool Naunet::PrepareLevel(" + sig + ") {\n    if (cvflag < 0 && cvflag > -5) {\n        for (int i = 0; i < NEQUATIONS; i++) {\n            ab_tmp_[i] = ab[i];\n        }\n        dt -= t0;\n        return true;\n    }\n"
+            "    if (cvflag == -6) {\n        for (int i = 0; i < NEQUATIONS; i++) {\n            ab_tmp_[i] = ab_init_[i];\n        }\n        dt = dt_init;\n        return true;\n    }\n"
+            "    if (cvflag < 0) {\n        fprintf(errfp_, \"The error cannot be recovered by Naunet! Exit from Naunet!\\n\");\n        return false;\n    }\n    return true;\n}\n\n")
+
+
+def _integrate_member(in_handler):
+    return ("int Naunet::Integrate(vector_type &y, double dt, NaunetData *data, Observer &observer) {\n    step_ = 0;\n    try {\n        step_ = integrate_adaptive(\n            make_controlled<rosenbrock4<double>>(atol_, rtol_),\n"
+            + _INTEGRATE + "    } catch (const std::runtime_error &e) {\n        fprintf(errfp_, \"%s\\n\", e.what());\n" + in_handler + "    }\n    return NAUNET_SUCCESS;\n}\n\n")
+
+
+MUTANTS += [
+    {"name": "level-preparation-member-interval-by-value", "edits": [
+        {"file": CV, "old": _CHAIN, "new": _CALL_PREPARE},
+        {"file": CV, "old": _HEAD, "new": _prepare_level("int cvflag, const realtype *ab, realtype dt, realtype t0, realtype dt_init") + _HEAD}], "rules": ["R3"]},
+    {"name": "odeint-try-in-a-member-that-always-succeeds", "edits": [
+        {"file": OD, "old": _TRY, "new": "    flag = Integrate(y, dt, data, observer);\n"},
+        {"file": OD, "old": _OSOLVE, "new": _integrate_member("") + _OSOLVE}], "rules": ["R4"]},
+    {"name": "odeint-integration-outside-try", "file": OD, "old": _TRY, "new": "    step_ = integrate_adaptive(\n            make_controlled<rosenbrock4<double>>(atol_, rtol_),\n" + _INTEGRATE, "rules": ["R4"]},
+    {"name": "solve-hands-over-a-stale-time", "edits": [
+        {"file": CV, "old": "    cvflag   = CVode(cv_mem_, dt, cv_y_, &t0, CV_NORMAL);\n", "new": "    const realtype reached = t0;\n    cvflag   = CVode(cv_mem_, dt, cv_y_, &t0, CV_NORMAL);\n"},
+        {"file": CV, "old": "    int flag = HandleError(cvflag, ab, dt, t0);\n", "new": "    int flag = HandleError(cvflag, ab, dt, reached);\n"}], "rules": ["R2"]},
+]
+BENIGN += [
+    {"name": "level-preparation-member-interval-by-reference", "edits": [
+        {"file": CV, "old": _CHAIN, "new": _CALL_PREPARE},
+        {"file": CV, "old": _HEAD, "new": _prepare_level("int cvflag, const realtype *ab, realtype &dt, realtype t0, realtype dt_init") + _HEAD}]},
+    {"name": "reinitialisation-in-a-member", "edits": [
+        {"file": CV, "old": _REINIT, "new": "        if (Restart(ab, t0) == NAUNET_FAIL) {\n            return NAUNET_FAIL;\n        }\n"},
+        {"file": CV, "old": _HEAD, "new": _RESTART + _HEAD}]},
+    {"name": "odeint-try-in-a-member-returning-from-the-handler", "edits": [
+        {"file": OD, "old": _TRY, "new": "    flag = Integrate(y, dt, data, observer);\n"},
+        {"file": OD, "old": _OSOLVE, "new": _integrate_member("        return NAUNET_FAIL;\n") + _OSOLVE}]},
+    {"name": "arguments-under-local-names", "edits": [
+        {"file": CV, "old": "    int flag = HandleError(cvflag, ab, dt, t0);\n", "new": "    const realtype reached = t0;\n    int flag = HandleError(cvflag, ab, dt, reached);\n"},
+        {"file": OD, "old": "    Observer observer(mxsteps_);\n", "new": "    const int budget = mxsteps_;\n    Observer observer{budget};\n"}]},
+]
